@@ -110,16 +110,17 @@ const (
 
 // lexer contains the current state of a lexer.
 type lexer struct {
-	start  int // The position of the last emission
-	pos    int // The position of the cursor
-	line   int // The current line number
-	offset int // The current character offset on the current line
-	input  string
-	tokens chan token
-	state  stateFn
-	mode   mode
-	last   token // The last emitted token
-	parens int   // Number of open parenthesis
+	start   int // The position of the last emission
+	pos     int // The position of the cursor
+	line    int // The current line number
+	offset  int // The current character offset on the current line
+	input   string
+	tokens  chan token
+	state   stateFn
+	mode    mode
+	last    token // The last emitted token
+	readErr error // Error encountered while reading the input, if any
+	parens  int   // Number of open parenthesis
 	// Kinds of the open brackets, innermost last: a "}}" directly inside a hash
 	// literal closes that hash (and its parent), not the print statement.
 	brackets []byte
@@ -163,6 +164,11 @@ func (l *lexer) nextToken() token {
 
 // tokenize kicks things off.
 func (l *lexer) tokenize() {
+	if l.readErr != nil {
+		// The source is incomplete: nothing of it is a template.
+		l.errorf("unable to read template: %s", l.readErr)
+		return
+	}
 	for l.state = lexData; l.state != nil; {
 		l.state = l.state(l)
 	}
@@ -171,10 +177,10 @@ func (l *lexer) tokenize() {
 // newLexer creates a lexer, ready to begin tokenizing.
 func newLexer(input io.Reader) *lexer {
 	// TODO: lexer should use the reader.
-	i, _ := ioutil.ReadAll(input)
+	i, err := ioutil.ReadAll(input)
 	return &lexer{
 		start: 0, pos: 0, line: 1, offset: 0, input: string(i), tokens: make(chan token),
-		mode: modeNormal, done: make(chan struct{}),
+		mode: modeNormal, done: make(chan struct{}), readErr: err,
 	}
 }
 
